@@ -94,14 +94,46 @@ def observe(name, G, kw0, extra=None, numeric=False):
                     f0 = np.asarray(call.dfunc(x0, 0, *call.args), dtype=float).ravel()
                     val = sp.Float(sum(float(g) * float(v) for g, v in zip(grad, f0)))
                     obs['d%s/dt(t0)' % nm] = sp.nsimplify(round(float(val), 9)) if float(val) == float(val) else 'unevaluable: nan'
+                    eps = 1e-4
+                    fp = np.asarray(call.dfunc(x0 + eps * f0, 0, *call.args), dtype=float).ravel()
+                    fm = np.asarray(call.dfunc(x0 - eps * f0, 0, *call.args), dtype=float).ravel()
+                    v2 = sum(float(g) * float(v) for g, v in zip(grad, (fp - fm) / (2 * eps)))
+                    if v2 == v2 and all(sp.sympify(g).is_number for g in grad):
+                        obs['d2%s/dt2(t0)' % nm] = sp.nsimplify(round(float(v2), 4))
                 else:
                     f0 = Hn.rhs_at(call, list(call.X0))
                     val = sp.simplify(sp.together(sum(g * v for g, v in zip(grad, f0))))
                     obs['d%s/dt(t0)' % nm] = val if val == val and not val.has(sp.nan) else 'unevaluable: nan'
+                    # second Lie derivative (exact): distinguishes states that only differ in how the pairs are distributed
+                    try:
+                        fs = [sp.sympify(v) for v in Hn.rhs_at(call, list(syms))]
+                        g0 = sp.sympify(Hn.rat(a[1]))
+                        l1 = sum(sp.diff(g0, s_) * v for s_, v in zip(syms, fs))
+                        l2 = sum(sp.diff(l1, s_) * v for s_, v in zip(syms, fs))
+                        v2 = sp.simplify(sp.together(l2.xreplace(at0)))
+                        if v2 == v2 and not v2.has(sp.nan) and not v2.has(sp.zoo):
+                            obs['d2%s/dt2(t0)' % nm] = v2
+                    except Exception:
+                        pass
             except Exception as e:
                 obs['d%s/dt(t0)' % nm] = 'unevaluable: %s' % type(e).__name__
         elif len(a) > 1 and not calls:
             obs[nm + '(t1)'] = sp.simplify(Hn.rat(a[1]))
+    return obs
+
+
+def observe_full(name, G, kw0, extra=None, numeric=False):
+    """observe(); where the exact second derivative of S is not evaluable (0/0 in empty degree classes) the
+    finite-difference one of a numeric run (tau=0.7, gamma=1.3) is added under 'num:' keys"""
+    obs = observe(name, G, kw0, extra=extra, numeric=numeric)
+    if not numeric and 'd2S/dt2(t0)' not in obs and not any(isinstance(v, str) for v in obs.values()):
+        try:
+            num = observe(name, G, kw0, extra=extra, numeric=True)
+            for k, v in num.items():
+                if k.startswith('d2') and not isinstance(v, str):
+                    obs['num:' + k] = v
+        except Exception:
+            pass
     return obs
 
 
@@ -126,17 +158,17 @@ def obligations(tier='quick', seed=0):
             for mode, mk in modes:
                 numeric = False
                 try:
-                    ref = observe(name, G, mk({u: u for u in nodes}))
+                    ref = observe_full(name, G, mk({u: u for u in nodes}))
                     if any(isinstance(v, str) for v in ref.values()):
                         numeric = True
-                        ref = observe(name, G, mk({u: u for u in nodes}), numeric=True)
+                        ref = observe_full(name, G, mk({u: u for u in nodes}), numeric=True)
                 except Exception as e:
                     err = 'reference run failed on %s/%s: %s: %s' % (gname, mode, type(e).__name__, str(e)[:120])
                     continue
                 if 'nodelist' in sig.parameters:
                     nruns += 1
                     try:
-                        got = observe(name, G, mk({u: u for u in nodes}), extra=dict(nodelist=nodes[::-1]), numeric=numeric)
+                        got = observe_full(name, G, mk({u: u for u in nodes}), extra=dict(nodelist=nodes[::-1]), numeric=numeric)
                         for k in ref:
                             a, b = ref[k], got.get(k)
                             same = (a == b) if (isinstance(a, str) or isinstance(b, str)) else Hn.zero(a - b)
@@ -151,7 +183,7 @@ def obligations(tier='quick', seed=0):
                 for rname, m, H in relabelings(G, tier, seed):
                     nruns += 1
                     try:
-                        got = observe(name, H, mk(m), numeric=numeric)
+                        got = observe_full(name, H, mk(m), numeric=numeric)
                     except Exception as e:
                         tb = traceback.extract_tb(e.__traceback__)[-1]
                         bad.append(dict(graph=gname, relabelling=rname, mode=mode, nodes=[str(x) for x in H.nodes()],
@@ -193,6 +225,10 @@ def simulator_obligations(tier='quick', seed=0):
         sim = EoN.fast_nonMarkov_SIS(G, trans_time_fxn=lambda u, v, d: [0.5 + 0.25 * deg[v]] if 0.5 + 0.25 * deg[v] < d else [],
                                       rec_time_fxn=lambda u: 1.0 + 0.5 * deg[u], initial_infecteds=ii, tmax=6, return_full_data=True)
         res['fast_nonMarkov_SIS'] = {u: sim.node_history(u) for u in G}
+        # several attempts per edge, incommensurable constants (no two events at the same instant)
+        sim = EoN.fast_nonMarkov_SIS(G, trans_time_fxn=lambda u, v, d: [x for x in (0.5 + 0.2537 * deg[v], 1.3071 + 0.2537 * deg[v] + 0.1193 * deg[u], 2.9173 + 0.0611 * deg[v]) if x < d],
+                                      rec_time_fxn=lambda u: 1.5 + 0.5113 * deg[u], initial_infecteds=ii, tmax=7, return_full_data=True)
+        res['fast_nonMarkov_SIS(several attempts per edge)'] = {u: sim.node_history(u) for u in G}
         return res
     for gname, G in base_graphs(tier):
         nodes = list(G.nodes())
